@@ -29,6 +29,46 @@ fn main() {
           let _ = ctx.term().await;
           tokio::time::timeout(Duration::from_secs(3), h).await.is_ok()
         }
+        "O" => {
+          // first API call right after socket creation
+          let s = ctx.socket(SocketType::Push).unwrap();
+          let r = s.set_option(opt::RECONNECT_IVL, 50).await;
+          if let Err(e) = &r {
+            println!("iter {} set_option failed: {:?}", it, e);
+          }
+          let _ = tokio::time::timeout(Duration::from_secs(5), ctx.term()).await;
+          r.is_ok()
+        }
+        "O2" => {
+          // API calls on one socket while the context's event bus is busy (other sockets coming and going)
+          let s = ctx.socket(SocketType::Push).unwrap();
+          let c2 = ctx.clone();
+          let churn = tokio::spawn(async move {
+            loop {
+              let mut v = vec![];
+              for _ in 0..4 {
+                if let Ok(x) = c2.socket(SocketType::Pull) {
+                  let _ = x.bind("tcp://127.0.0.1:0").await;
+                  v.push(x);
+                }
+              }
+              for x in v {
+                let _ = x.close().await;
+              }
+            }
+          });
+          let mut bad = 0;
+          for k in 0..3000 {
+            let r = if k % 2 == 0 { s.set_option(opt::RECONNECT_IVL, 50).await } else { s.get_option(opt::RCVHWM).await.map(|_| ()) };
+            if let Err(e) = &r {
+              println!("iter {} call {} failed: {:?}", it, k, e);
+              bad += 1;
+            }
+          }
+          churn.abort();
+          let _ = tokio::time::timeout(Duration::from_secs(10), ctx.term()).await;
+          bad == 0
+        }
         "Q" => {
           // does ReadyPipeQueue::close() release a blocked pop() while a sender clone is still alive?
           let q = std::sync::Arc::new(rzmq::verif::Rpq::<u32>::new(4));
